@@ -83,7 +83,8 @@ FamAbsence(AL) ==
         << PlainWorker(<<1, 1, 1>>, 1), Worker(1, <<2, 0, 1>>, <<>>, 3, FALSE, wab, 0) >>,
         <<>>, <<>>, <<>>, Opt(al, aa, "TSLACK", 16))
     : w1 \in {1, 3}, au \in BOOLEAN, aa \in BOOLEAN, al \in AL, wab \in {<<>>, <<1>>},
-      d \in {<<>>, <<<<1, 2, "FS">>>>, <<<<1, 2, "SS">>, <<2, 3, "FS">>>>, <<<<1, 3, "FF">>>>} }
+      d \in {<<>>, <<<<1, 2, "FS">>>>, <<<<1, 2, "SS">>, <<2, 3, "FS">>>>, <<<<1, 3, "FF">>>>,
+             <<<<2, 3, "SS">>>>, <<<<2, 1, "SF">>>>} }
 
 \* ---- FamPert: finish-to-start DAGs -----------------------------------------------
 FamPert(n, W) ==
